@@ -8,7 +8,7 @@ from vlib import gen, gen_ops
 from vlib.build import Flavour, build
 from vlib.core import Part
 from vlib.invariants import structural
-from vlib.observe import Uids, snapshot, walk
+from vlib.observe import Uids, kind_of, snapshot, walk
 from vlib.ops import Engine, engine_known, flush_excluded
 
 ID = "C07"
@@ -19,7 +19,7 @@ RULE = (
     "case = (data flavour in {str with explicit ids, objects keyed by a calc_data_id callback, objects keyed by a "
     "subclass override}, plain/typed, source tree with clones, target tree, one copy operation out of {Tree.copy(), "
     "Node.copy(add_self), Tree.copy_to(target, deep), Node.copy_to(other-tree target, add_self, before, deep), "
-    "target.add(node, deep, before), target.add(tree, before, deep)}, then a mutation history (rename/set_data, add, "
+    "target.add(node, deep, before), target.add(tree, before, deep), the shortcuts append_child / prepend_child / prepend_sibling / append_sibling(tree)}, then a mutation history (rename/set_data, add, "
     "remove, move, sort, meta, clear ...) on the copy side or on the source side). Oracle: faithful (copies are new "
     "node objects holding the *same* data objects under the same data_ids and kinds, same order/shape for deep, a "
     "single childless node for shallow, placed as `before` says, copy()/Node.copy() return a tree of the source's "
@@ -35,7 +35,7 @@ ASSUMPTIONS = [
     "independence concerns tree structure, ids, kinds, data references and metadata; the shared data objects themselves are shared by design",
 ]
 
-FLAVS = ["str", "obj_cb", "obj_sub"]
+FLAVS = ["str", "obj_cb", "obj_sub", "obj_fwd"]
 
 
 def snap(tree, u):
@@ -47,7 +47,7 @@ def plain_view(tree):
     w = walk(tree)
 
     def one(n):
-        return [id(n.data), n.data_id, getattr(n, "kind", None), dict(n.meta) if n.meta else None, [one(c) for c in w.kids[id(n)]]]
+        return [id(n.data), n.data_id, kind_of(n), dict(n.meta) if n.meta else None, [one(c) for c in w.kids[id(n)]]]
 
     return [one(n) for n in w.kids[id(None)]], w
 
@@ -90,7 +90,7 @@ def run(case, rec):
             w_src = walk(src)
 
             def one(n):
-                return [id(n.data), n.data_id, getattr(n, "kind", None), dict(n.meta) if n.meta else None, [one(c) for c in w_src.kids[id(n)]]]
+                return [id(n.data), n.data_id, kind_of(n), dict(n.meta) if n.meta else None, [one(c) for c in w_src.kids[id(n)]]]
 
             exp_view = [one(start)] if add_self else [one(c) for c in w_src.kids[id(start)]]
             if typed and add_self and "D10a" in known and exp_view[0][2] != "child":
@@ -134,7 +134,7 @@ def run(case, rec):
                 rec.evals += 1
 
                 def one_cp(n):
-                    return [id(n.data), n.data_id, getattr(n, "kind", None), [one_cp(c) for c in w_cp.kids[id(n)]]]
+                    return [id(n.data), n.data_id, kind_of(n), [one_cp(c) for c in w_cp.kids[id(n)]]]
 
                 exp3 = [one_cp(inner)]
                 if typed and "D10a" in known and exp3[0][2] != "child":
@@ -238,7 +238,7 @@ def _pretty(tree):
     w = walk(tree)
 
     def one(n):
-        return [f"{n.data}", repr(n.data_id), getattr(n, "kind", None), [one(c) for c in w.kids[id(n)]]]
+        return [f"{n.data}", repr(n.data_id), kind_of(n), [one(c) for c in w.kids[id(n)]]]
 
     return [one(n) for n in w.kids[id(None)]]
 
@@ -273,6 +273,7 @@ def hyp_cases(draw, tier):
         st.tuples(st.just("copy_from2"), gen_ops.REF, gen_ops.PREF, st.sampled_from([True, True, False]), B, st.booleans()).map(list),
         st.tuples(st.just("add_node"), gen_ops.PREF, st.just(1), gen_ops.REF, tri, B).map(list),
         st.tuples(st.just("add_tree"), gen_ops.PREF, B, tri).map(list),
+        st.tuples(st.just("shortcut_tree"), st.sampled_from(["append_child", "prepend_child", "prepend_sibling", "append_sibling"]), gen_ops.REF, tri).map(list),
     ))
     if eq_later is not None and draw(st.booleans()):
         # directed: place the copy before the LATER one of two equal-comparing top-level siblings
